@@ -159,11 +159,34 @@ pub fn run(tier: &str) -> i32 {
     match trace_getenv(&me, &dir, &inp) {
         Ok(names) => {
             rep.put("getenv_traced", json!(true));
+            // reading a variable is not yet depending on it: the inputs are expanded again with the variable unset and set to
+            // a few values; only a difference in the output is a violation
+            let mut harmless = vec![];
             for n in names {
-                let mut fl = super::fail("environment", &[], &ins[0].src, &[], "reads-environment", format!("expanding the inputs reads the environment variable `{}`", n));
-                fl.expected = "no environment variable is consulted while expanding".into();
-                rep.fail(fl);
+                let mut outs: Vec<(String, Vec<u8>)> = vec![];
+                for (label, val) in [("unset", None), ("empty", Some("")), ("1", Some("1")), ("o2o", Some("o2o")), ("true", Some("true")), ("/tmp", Some("/tmp"))] {
+                    let o = format!("{}/env-{}.jsonl", dir, label.replace('/', "_"));
+                    let mut cmd = std::process::Command::new(&me);
+                    cmd.args(["expand-file", &inp, &o]).env_remove(&n);
+                    if let Some(v) = val {
+                        cmd.env(&n, v);
+                    }
+                    if !matches!(cmd.status(), Ok(s) if s.success()) {
+                        eprintln!("MACHINERY-ERROR: environment re-run failed");
+                        return 2;
+                    }
+                    outs.push((label.to_string(), std::fs::read(&o).unwrap_or_default()));
+                }
+                let differing: Vec<&str> = outs.iter().filter(|(_, b)| *b != outs[0].1).map(|(l, _)| l.as_str()).collect();
+                if differing.is_empty() {
+                    harmless.push(n);
+                } else {
+                    let mut fl = super::fail("environment", &[], &ins[0].src, &[], "reads-environment", format!("the expansions depend on the environment variable `{}` (output with it unset differs from output with it set to: {})", n, differing.join(", ")));
+                    fl.expected = "nothing in the output depends on the environment".into();
+                    rep.fail(fl);
+                }
             }
+            rep.put("env_vars_read_without_effect", json!(harmless));
         }
         Err(e) => {
             rep.put("getenv_traced", json!(false));
